@@ -63,34 +63,99 @@ def apply() -> None:
 
     SBT = bl.SymbolicBoundedIntTuple
 
-    def points_eq(a, b):  # tracing is ON here
-        with NoTracing():
-            a_sym, b_sym = isinstance(a, SBT), isinstance(b, SBT)
-            a_cat, b_cat = isinstance(a, SequenceConcatenation), isinstance(b, SequenceConcatenation)
-            both_real = isinstance(a, (list, tuple)) and isinstance(b, (list, tuple))
-        if b_sym:
-            return b.__eq__(a)
-        if a_sym:
-            return a.__eq__(b)
-        if a_cat or b_cat:
-            if b_cat and not a_cat:
-                a, b = b, a
-            if a.__len__() != b.__len__():
-                return False
-            n = a._first.__len__()
-            if not points_eq(a._first, b[:n]):
-                return False
-            return points_eq(a._second, b[n:])
-        if both_real:
-            with NoTracing():
-                same_kind = type(a) is type(b)
-            if same_kind:
-                return a == b
-        if a.__len__() != b.__len__():
+    def chunks(seq):
+        """leaves of a (possibly deeply left-nested) concatenation tree, left to right; tracing is OFF here"""
+        out, stack = [], [seq]
+        while stack:
+            x = stack.pop()
+            if isinstance(x, SequenceConcatenation):
+                stack.append(x._second)
+                stack.append(x._first)
+            else:
+                out.append(x)
+        return out
+
+    def concrete_ints(x) -> bool:
+        if not isinstance(x, (list, tuple)):
             return False
-        for x, y in zip(a, b):
+        for v in x:
+            if type(v) is not int:
+                return False
+        return True
+
+    def leaf_eq(sa, sb):  # tracing ON; equal lengths already established
+        with NoTracing():
+            a_sym, b_sym = isinstance(sa, SBT), isinstance(sb, SBT)
+            both_conc = concrete_ints(sa) and concrete_ints(sb)
+            if both_conc:
+                return list(sa) == list(sb)
+        if b_sym:
+            return sb.__eq__(sa)
+        if a_sym:
+            return sa.__eq__(sb)
+        for x, y in zip(sa, sb):
             if x != y:
                 return False
+        return True
+
+    def points_eq(a, b):  # tracing is ON here
+        with NoTracing():
+            A, B = chunks(a), chunks(b)
+            # merge runs of adjacent concrete leaves: long rendered strings are hundreds of tiny concrete pieces
+            def merge(parts):
+                out = []
+                for p_ in parts:
+                    if concrete_ints(p_):
+                        if len(p_) == 0:
+                            continue
+                        if out and type(out[-1]) is list and concrete_ints(out[-1]):
+                            out[-1] = out[-1] + list(p_)
+                        else:
+                            out.append(list(p_))
+                    else:
+                        out.append(p_)
+                return out
+            A, B = merge(A), merge(B)
+            all_conc = all(concrete_ints(x) for x in A) and all(concrete_ints(x) for x in B)
+            if all_conc:
+                fa = [v for x in A for v in x]
+                fb = [v for x in B for v in x]
+                return fa == fb
+        # total lengths (one fork at most)
+        la = 0
+        for x in A:
+            la = la + x.__len__()
+        lb = 0
+        for x in B:
+            lb = lb + x.__len__()
+        if la != lb:
+            return False
+        i = j = 0
+        oa = ob = 0
+        while i < len(A) and j < len(B):
+            xa, xb = A[i], B[j]
+            na = xa.__len__() - oa
+            nb = xb.__len__() - ob
+            if na == 0:
+                i, oa = i + 1, 0
+                continue
+            if nb == 0:
+                j, ob = j + 1, 0
+                continue
+            if na <= nb:
+                n = na
+            else:
+                n = nb
+            with NoTracing():
+                from crosshair.core import realize as _realize
+                n = _realize(n)
+                oa_c, ob_c = _realize(oa), _realize(ob)
+            sa = xa[oa_c:oa_c + n]
+            sb = xb[ob_c:ob_c + n]
+            if not leaf_eq(sa, sb):
+                return False
+            oa, ob = oa_c + n, ob_c + n
+        # both exhausted (total lengths are equal)
         return True
 
     def str_eq(self, other):
